@@ -20,6 +20,25 @@ fn check_tree(x: &T, clsp: &T, acc: &mut Acc, name: &str) {
         if n.digest != c.digest {
             acc.violation(canon.clone(), "native and ChiaLisp tree hashes differ".into());
         }
+        // history: native calls that run out of budget at 1/4, 1/2, 3/4 and all-but-one of the cost (somewhere inside
+        // the traversal), each followed on the same thread by the unlimited call: its cost and hash must be unchanged
+        {
+            let mut carried = None;
+            for b in [n.cost / 4, n.cost / 2, n.cost / 4 * 3, n.cost - 1] {
+                if b == 0 {
+                    continue;
+                }
+                let (f, again) = with_loaded(&native, &crate::tree::nil(), Enc::Inline, |l| (l.run_flags(flags, b), l.run_flags(flags, 0)));
+                acc.add("runs", 2);
+                if f.ok || !again.ok || again.cost != n.cost || again.digest != n.digest {
+                    carried = Some(format!("after the native call failed under budget {b} ({}), the unlimited call gives {} (fresh: {})", f.brief(), again.brief(), n.brief()));
+                    break;
+                }
+            }
+            if let Some(m) = carried {
+                acc.violation(canon.clone(), m);
+            }
+        }
         if n.cost >= c.cost {
             acc.violation(canon, format!("native sha256tree costs {} but the ChiaLisp program costs {}", n.cost, c.cost));
         } else {
@@ -79,6 +98,6 @@ pub fn run(ctx: &Ctx) -> Report {
     rep.states = rep.acc.get("trees");
     rep.transitions = rep.acc.get("runs");
     rep.traces = rep.acc.get("comparisons");
-    rep.rule = format!("every tree of TREES({}, {{nil, 01, 32-byte}}) and TREES({}, atom sizes {{0,1,100,1000,100000}}), right lists / left spines up to {nmax}, complete trees, single atoms up to 1 MiB, under ENABLE_SHA256_TREE with and without NEW_COST_MODEL: cost of (sha256tree (q . X)) must be strictly below the cost of the standard ChiaLisp sha256tree program (tools/src/bin/sha256tree-benching.rs) applied to X, and both must return the same hash. Non-trivial = comparisons (each compares two real run_program costs).", ctx.pick(6, 7), ctx.pick(3, 4));
+    rep.rule = format!("every tree of TREES({}, {{nil, 01, 32-byte}}) and TREES({}, atom sizes {{0,1,100,1000,100000}}), right lists / left spines up to {nmax}, complete trees, single atoms up to 1 MiB (each also as a history: a native call that runs out of budget at 1/4, 1/2, 3/4, C-1 followed by the unlimited call, which must be unchanged), under ENABLE_SHA256_TREE with and without NEW_COST_MODEL: cost of (sha256tree (q . X)) must be strictly below the cost of the standard ChiaLisp sha256tree program (tools/src/bin/sha256tree-benching.rs) applied to X, and both must return the same hash. Non-trivial = comparisons (each compares two real run_program costs).", ctx.pick(6, 7), ctx.pick(3, 4));
     rep
 }
